@@ -60,8 +60,31 @@ class CapArray(np.ndarray):
     """object array with a symbolic logical length along axis 0 (capacity = real shape[0])"""
     symlen = None
 
+    def astype(self, dtype, *a, **kw):
+        if self.dtype == object and shim.has_sym(np.asarray(self)):
+            return sym_astype(self, dtype)
+        return np.asarray(self).astype(dtype, *a, **kw)
+
     def __array_finalize__(self, obj):
         self.symlen = getattr(obj, "symlen", None) if obj is not None and getattr(obj, "shape", None) == self.shape else None
+
+
+def sym_astype(arr, dtype):
+    """astype on an object array holding proxies: element-wise symbolic conversion (no forking)"""
+    kind = str(dtype)
+    out = np.empty(arr.shape, dtype=object)
+    fo, fi = out.reshape(-1), np.asarray(arr).reshape(-1)
+    for i in range(fi.shape[0]):
+        e = fi[i]
+        if "int" in kind:
+            fo[i] = e if isinstance(e, SymInt) else (V.sym_int(e) if is_sym(e) else int(e))
+        elif "bool" in kind:
+            fo[i] = (e != 0) if isinstance(e, (SymInt, SymReal)) else (e if isinstance(e, SymBool) else bool(e))
+        else:
+            fo[i] = V.sym_float(e) if is_sym(e) else float(e)
+    out = out.view(CapArray)
+    out.symlen = getattr(arr, "symlen", None)
+    return out
 
 
 def sym_shape(a):
@@ -766,6 +789,9 @@ class Interp:
             return shim.s_min(*args, **kwargs)
         if f is builtins.isinstance or f is builtins.print:
             return f(*args, **kwargs)
+        owner0 = getattr(f, "__self__", None)
+        if isinstance(owner0, np.ndarray) and getattr(f, "__name__", "") == "astype" and owner0.dtype == object and shim.has_sym(owner0):
+            return sym_astype(owner0, args[0] if args else kwargs.get("dtype", "float"))
         mod = getattr(real, "__module__", "") or ""
         if inspect.isfunction(real) and real in STUBS:
             return STUBS[real](*args, **kwargs)
@@ -906,7 +932,10 @@ def _make_dispatcher(f):
             r = run(f, *args, **kwargs)
             if r.events:
                 LAST_EVENTS.extend(r.events)
-            return r.value
+            v = r.value
+            if isinstance(v, np.ndarray) and v.dtype == object and not isinstance(v, CapArray):
+                v = v.view(CapArray)
+            return v
         return f(*args, **kwargs)
 
     disp.__wrapped_kernel__ = f
